@@ -62,7 +62,8 @@ CONFIG = {
     'must_sig': ['new:created', 'new:reused', 'new:collapsed',
                  'inject:drop_in_find_isomorph', 'inject:gc_in_find_isomorph',
                  'inject:drop', 'inject:gc', 'step:cycle', 'step:restrict',
-                 'step:xor', 'died'],
+                 'step:xor', 'died', 'history:wide', 'history:long',
+                 'idreuse:same_address'],
     'rule': ('cases = operation histories (300 steps quick / 1500 thorough) '
              'over a pool of <=40 OBDDs, <=4 variables, one random ordering '
              'per history, with injected drops/collections; plus all pairs '
@@ -343,14 +344,36 @@ def random_expr_text(r, vs, depth):
                            random_expr_text(r, vs, depth - 1))
 
 
+class Ent(object):
+    """Pool entry: a real OBDD plus the truth table it is MEANT to denote,
+    computed by the harness from the operation history (never from the
+    diagram)."""
+    __slots__ = ('o', 'tt')
+
+    def __init__(self, o, tt):
+        self.o = o
+        self.tt = tt
+
+
 def canon_check(pool, order, where):
-    live = [o for o in pool if o is not None]
-    tts = [refbool.tt_of_node(o.root, order) for o in live]
+    live = [e for e in pool if e is not None]
+    n = len(order)
+    for e in live:
+        LOG.hit('c16.denotes')
+        got = refbool.tt_of_node(e.o.root, order)
+        if got != e.tt:
+            LOG.violation('c16.canon', PROP,
+                          {'where': where, 'order': order,
+                           'diagram': str(e.o.root), 'replay': _replay_info()},
+                          {'tt_of_diagram': got}, {'tt_meant': e.tt},
+                          note='an OBDD obtained through the history does '
+                               'not denote the function its operations '
+                               'define (stale or wrong result)')
     for i in range(len(live)):
         for j in range(i, len(live)):
             LOG.hit('c16.canon')
-            a, b = live[i], live[j]
-            same_fn = tts[i] == tts[j]
+            a, b = live[i].o, live[j].o
+            same_fn = live[i].tt == live[j].tt
             try:
                 eq = (a == b)
                 eq2 = (b == a)
@@ -370,53 +393,84 @@ def canon_check(pool, order, where):
                               'different functions compare equal')
 
 
-def history(ctx, hid, steps, inject=True):
+def _cofactor(tt, n, i, value):
+    out = 0
+    for k in range(1 << n):
+        kk = (k | 1 << i) if value else (k & ~(1 << i))
+        if tt >> kk & 1:
+            out |= 1 << k
+    return out
+
+
+def history(ctx, hid, steps, inject=True, wide=False):
     from pyModelChecking.BDD import OBDD
     r = gen.rng(ctx.seed, PROP, hid)
     _state['hist'] = hid
     _state['created'] = 0
-    nv = r.randint(2, 4)
-    vs = ['a', 'b', 'c', 'd'][:nv]
+    if wide:
+        # many variables and a large pool: parent sets of popular children
+        # grow well beyond a handful of nodes
+        nv = r.randint(5, 6)
+        psize = 160
+        LOG.sig['history:wide'] += 1
+    else:
+        nv = r.randint(2, 4)
+        psize = 40
+    vs = ['a', 'b', 'c', 'd', 'e', 'f'][:nv]
     order = list(vs)
     r.shuffle(order)
-    pool = [None] * 40
+    full = (1 << (1 << nv)) - 1
+    pool = [None] * psize
     cycles = []
     inj = Injector('%s/%s/%s' % (ctx.seed, hid, 'inj'), pool, cycles,
                    pdrop=r.choice([0.0, 0.01, 0.03, 0.08]) if inject else 0,
                    pgc=r.choice([0.0, 0.005, 0.02]) if inject else 0)
     _state['inj'] = inj
     before_dead = LOG.counters['nodes_died']
+    every = 25 if not wide else 150
 
     def pick():
-        live = [o for o in pool if o is not None]
+        live = [e for e in pool if e is not None]
         return r.choice(live) if live else None
 
-    def put(o):
-        pool[r.randrange(len(pool))] = o
+    def put(o, tt):
+        pool[r.randrange(len(pool))] = Ent(o, tt)
 
     def died(_):
         LOG.counters['nodes_died'] += 1
     try:
         for step in range(steps):
             k = r.random()
+            if wide and k >= 0.7 and k < 0.85 and r.random() < 0.7:
+                k = 0.1          # wide histories mostly build and combine
             inj.enabled = True
             try:
                 if k < 0.22 or pick() is None:
                     LOG.sig['step:build'] += 1
-                    put(OBDD(random_expr_text(r, vs, r.randint(1, 4)),
-                             list(order)))
+                    txt = random_expr_text(r, vs, r.randint(1, 4))
+                    tt = refbool.tt_of_expr(txt, order)
+                    put(OBDD(txt, list(order)), tt)
                 elif k < 0.5:
                     a, b = pick(), pick()
                     op = r.choice(['and', 'or', 'xor'])
                     LOG.sig['step:' + op] += 1
-                    put(a & b if op == 'and' else
-                        (a | b if op == 'or' else a ^ b))
+                    if op == 'and':
+                        put(a.o & b.o, a.tt & b.tt)
+                    elif op == 'or':
+                        put(a.o | b.o, a.tt | b.tt)
+                    else:
+                        put(a.o ^ b.o, a.tt ^ b.tt)
                 elif k < 0.6:
                     LOG.sig['step:invert'] += 1
-                    put(~pick())
+                    a = pick()
+                    put(~a.o, full & ~a.tt)
                 elif k < 0.7:
                     LOG.sig['step:restrict'] += 1
-                    put(pick().restrict(r.choice(vs), r.random() < 0.5))
+                    a = pick()
+                    v = r.choice(vs)
+                    val = r.random() < 0.5
+                    put(a.o.restrict(v, val),
+                        _cofactor(a.tt, nv, order.index(v), val))
                 elif k < 0.85:
                     LOG.sig['step:drop'] += 1
                     pool[r.randrange(len(pool))] = None
@@ -428,7 +482,7 @@ def history(ctx, hid, steps, inject=True):
                     for i, o in enumerate(pool):
                         if any(o is x for x in objs):
                             pool[i] = None
-                    c = plant_cycle(objs)
+                    c = plant_cycle([x.o for x in objs if x is not None])
                     if r.random() < 0.5:
                         cycles.append(c)       # the injector may drop it
                     del c, objs
@@ -438,18 +492,17 @@ def history(ctx, hid, steps, inject=True):
             finally:
                 inj.enabled = False
             # track deaths of a few roots
-            o = pick()
-            if o is not None and type(o.root).__name__ == \
+            e = pick()
+            if e is not None and type(e.o.root).__name__ == \
                     'BDDNonTerminalNode' and step % 7 == 0:
                 try:
-                    weakref.finalize(o.root, died, None)
+                    weakref.finalize(e.o.root, died, None)
                 except TypeError:
                     pass
-            if step % 25 == 24:
-                a = b = o = None
+            a = b = e = None
+            if step % every == every - 1:
                 census('history %d step %d' % (hid, step))
                 canon_check(pool, order, 'history %d step %d' % (hid, step))
-        a = b = o = None
         census('history %d end' % hid)
         canon_check(pool, order, 'history %d end' % hid)
     finally:
@@ -460,7 +513,7 @@ def history(ctx, hid, steps, inject=True):
     LOG.nontrivial_extra += LOG.counters.pop('nontrivial_new', 0)
     if hid % 16 == 0:
         LOG.sample({'history': hid, 'steps': steps, 'order': order,
-                    'injector': inj.describe(),
+                    'wide': wide, 'injector': inj.describe(),
                     'example_ops': ['build', '&', '|', '^', '~', 'restrict',
                                     'drop', 'cycle', 'gc']})
     # drop everything, collect: the heap must drain
@@ -468,6 +521,149 @@ def history(ctx, hid, steps, inject=True):
         pool[i] = None
     del cycles[:]
     gc.collect()
+
+
+def id_reuse_rounds(ctx, rounds):
+    """Hostile histories aimed at id() reuse: an operand is used, the caches
+    are aged by many other applications, the operand is dropped so that it
+    really dies, and a DIFFERENT node is allocated at once (CPython hands
+    the freed block back, so it usually gets the same address); then the same
+    operations are repeated with the newcomer.  Every result must denote the
+    function its operations define and share roots with an independently
+    parsed diagram."""
+    from pyModelChecking.BDD import OBDD, BDDNode
+    ops = (('and', lambda a, b: a & b), ('or', lambda a, b: a | b),
+           ('xor', lambda a, b: a ^ b))
+    for rd in range(rounds):
+        if not ctx.mine(rd):
+            continue
+        r = gen.rng(ctx.seed, PROP, ('idreuse', rd))
+        vs = ['a', 'b', 'c', 'd']
+        # one ordering for a long run of rounds: per-ordering state (caches,
+        # tables) of the library grows old, then the ordering changes
+        order = list(itertools.permutations(vs))[
+            (gen.rng(ctx.seed, PROP, 'idreuse-order').randrange(24)
+             + rd // 60) % 24]
+        order = list(order)
+        full = (1 << 16) - 1
+        top = order[0]
+        rest = order[1:]
+        _state['hist'] = 'idreuse-%d' % rd
+
+        def sub():
+            txt = random_expr_text(r, rest, r.randint(1, 3))
+            return OBDD(txt, list(order)), refbool.tt_of_expr(txt, order)
+
+        def ite(lo_tt, hi_tt):
+            # function of: top ? hi : lo   (bit 0 of the index = order[0])
+            out = 0
+            for k in range(16):
+                src = hi_tt if k & 1 else lo_tt
+                if src >> k & 1:
+                    out |= 1 << k
+            return out
+
+        def check(what, o, tt):
+            LOG.hit('c16.denotes')
+            got = refbool.tt_of_node(o.root, order)
+            ref = OBDD(refbool.expr_of_tt(tt, order), list(order))
+            if got != tt or not (o == ref and o.root is ref.root):
+                LOG.violation(
+                    'c16.canon', PROP,
+                    {'where': 'id-reuse round %d: %s' % (rd, what),
+                     'order': order, 'diagram': str(o.root),
+                     'idreuse_round': rd},
+                    {'tt_of_diagram': got, 'shares_root_with_parsed':
+                     o.root is ref.root}, {'tt_meant': tt},
+                    note='after a drop and an allocation at the freed '
+                         'address, a result does not denote the function '
+                         'its operations define')
+
+        X, xtt = sub()
+        X = OBDD('(%s) | (%s)' % (top, str(X.root) if str(X.root) not in
+                                    ('0', '1') else rest[0]), list(order)) \
+            if r.random() < 0.5 else X
+        xtt = refbool.tt_of_node(X.root, order)      # X is only an operand
+        (L, ltt), (H, htt) = sub(), sub()
+        if L.root is H.root:
+            continue
+        Y = OBDD(BDDNode(top, L.root, H.root), list(order))
+        ytt = ite(ltt, htt)
+        # one operator per round touches Y, and the same operator does all
+        # the ageing, so that whatever per-operator state the library keeps
+        # about (X, Y) is certainly old when Y is dropped
+        main = ops[rd % 3]
+        use_not = rd % 2 == 1
+        tts = {'and': xtt & ytt, 'or': xtt | ytt, 'xor': xtt ^ ytt}
+        # only ONE operand order per round (alternating): computing both
+        # would let symmetric bookkeeping mistakes cancel out
+        swap = (rd // 3) % 2 == 1
+        results = [main[1](Y, X) if swap else main[1](X, Y)]
+        check('%s before drop' % main[0], results[0], tts[main[0]])
+        NY = None
+        if use_not:
+            NY = ~Y
+            check('not before drop', NY, full & ~ytt)
+        # age every cache with many other applications of each operator
+        # (hundreds of recursive apply steps per operator, so that bounded
+        # tables turn over)
+        def big():
+            txt = random_expr_text(r, vs, r.randint(2, 4))
+            return OBDD(txt, list(order)), refbool.tt_of_expr(txt, order)
+        # fresh operands every time: repeated pairs would only hit caches
+        for j in range(r.randint(150, 210)):
+            a, b = big(), big()
+            o = main[1](a[0], b[0])
+            if use_not and j % 5 == 0:
+                o = ~a[0]
+        others = None
+        a = b = o = None
+        old_id = id(Y.root)
+        keep_results = r.random() < 0.5
+        if not keep_results:
+            results = None
+            NY = None
+        Y = None                      # the root of Y dies here
+        Y2 = OBDD(BDDNode(top, H.root, L.root), list(order))   # swapped
+        y2tt = ite(htt, ltt)
+        if id(Y2.root) == old_id:
+            LOG.sig['idreuse:same_address'] += 1
+        else:
+            LOG.sig['idreuse:other_address'] += 1
+        exp = {'and': xtt & y2tt, 'or': xtt | y2tt,
+               'xor': xtt ^ y2tt}[main[0]]
+        check('%s after drop' % main[0],
+              main[1](Y2, X) if swap else main[1](X, Y2), exp)
+        check('%s after drop (other operand order)' % main[0],
+              main[1](X, Y2) if swap else main[1](Y2, X), exp)
+        if use_not:
+            check('not after drop', ~Y2, full & ~y2tt)
+        check('restrict after drop', Y2.restrict(top, True), ltt)
+        # the same text under another ordering after the first one died
+        txt = random_expr_text(r, vs, 3)
+        o1 = OBDD(txt, list(order))
+        t1 = refbool.tt_of_expr(txt, order)
+        check('parse', o1, t1)
+        o1 = None
+        order2 = list(reversed(order))
+        o2 = OBDD(txt, list(order2))
+        LOG.hit('c16.denotes')
+        why = refbool.structure_problem(o2.root, order2)
+        if why or refbool.tt_of_node(o2.root, order2) != \
+                refbool.tt_of_expr(txt, order2):
+            LOG.violation('c16.canon', PROP,
+                          {'where': 'id-reuse round %d: reparse under '
+                                    'another ordering' % rd,
+                           'expr': txt, 'order': order2,
+                           'idreuse_round': rd},
+                          str(o2.root), 'the function of the text, ordered',
+                          note=why or 'stale parse result')
+        if rd % 64 == 0:
+            LOG.sample({'id_reuse_round': rd, 'order': order,
+                        'Y': 'BDDNode(%s, %s, %s)' % (top, L.root, H.root),
+                        'Y2': 'same with children swapped, allocated right '
+                              'after Y died'})
+    _state['hist'] = 0
 
 
 def pairs_exhaustive(ctx):
@@ -505,8 +701,16 @@ def run(ctx):
     steps = 300 if ctx.quick else 1500
     for h in range(nh):
         if ctx.mine(h):
-            history(ctx, h, steps, inject=(h % 4 != 3))
+            if h % 10 == 9:
+                # long history: thousands of applications of each operator
+                history(ctx, h, steps * 6, inject=(h % 4 != 3))
+                LOG.sig['history:long'] += 1
+            elif h % 10 == 4:
+                history(ctx, h, steps * 2, inject=(h % 4 != 3), wide=True)
+            else:
+                history(ctx, h, steps, inject=(h % 4 != 3))
     pairs_exhaustive(ctx)
+    id_reuse_rounds(ctx, 480 if ctx.quick else 12000)
     LOG.nontrivial_extra += LOG.counters.pop('nontrivial_new', 0)
     LOG.counters.pop('census_live_nodes_max', None)
 
@@ -516,7 +720,23 @@ def replay(ctx, rep):
     c = rep['case']
     info = c.get('replay') or {}
     hid = info.get('history', c.get('history'))
-    if hid is not None:
-        history(ctx, hid, 300 if ctx.quick else 1500, inject=(hid % 4 != 3))
+    if c.get('idreuse_round') is not None:
+        class _C(object):
+            pass
+        cc = _C()
+        cc.seed = ctx.seed
+        cc.quick = ctx.quick
+        want = c['idreuse_round']
+        cc.mine = lambda i: i == want
+        id_reuse_rounds(cc, want + 1)
+        return
+    if hid is not None and not str(hid).startswith('idreuse'):
+        steps = 300 if ctx.quick else 1500
+        if hid % 10 == 9:
+            history(ctx, hid, steps * 6, inject=(hid % 4 != 3))
+        elif hid % 10 == 4:
+            history(ctx, hid, steps * 2, inject=(hid % 4 != 3), wide=True)
+        else:
+            history(ctx, hid, steps, inject=(hid % 4 != 3))
     else:
         pairs_exhaustive(ctx)
